@@ -69,10 +69,17 @@ def main():
             missing = [t for t in base if t not in ok]
             meta["suite"] = {"stable_pass": len(base), "passing": len(ok), "baseline_tests_not_passing": missing[:20], "seconds": round(time.time() - t0)}
             meta["ran"].append(f"whole test suite in the patched worktree: {len(base) - len(missing)}/{len(base)} baseline tests pass")
-        # the check
+        # the check (files that a check regenerates from the source - lean/Generated - are saved and restored,
+        # so that a seeded run never leaves translated definitions of a mutated source behind)
+        gen = os.path.join(VERIF, "lean", "Generated")
+        gen_backup = tempfile.mkdtemp(prefix="seedgen.")
+        shutil.copytree(gen, os.path.join(gen_backup, "Generated"))
         t0 = time.time()
         env2 = dict(os.environ, PYLIFE_REPO=wt, VERIF_EVIDENCE_DIR=tempfile.mkdtemp(prefix="seedev."))
         rc, out = sh(["./check", prop, "--tier", tier], cwd=VERIF, env=env2, timeout=7200)
+        shutil.rmtree(gen)
+        shutil.copytree(os.path.join(gen_backup, "Generated"), gen)
+        shutil.rmtree(gen_backup, ignore_errors=True)
         vio = [l for l in out.splitlines() if l.startswith("VIOLATION")]
         meta["check"] = {"cmd": f"PYLIFE_REPO=<patched worktree> ./check {prop} --tier {tier}", "exit": rc, "violation_line": vio[:1], "seconds": round(time.time() - t0),
                          "tail": [l for l in out.splitlines() if not l.startswith("WARNING conda")][-8:]}
